@@ -16,11 +16,16 @@ type Query struct {
 	Type uint16
 }
 
-// Queries is the product Names x QTypes.
+// Queries is the product Names x QTypes followed by VeryDeepNames x VeryDeepQTypes.
 func Queries() []Query {
 	var q []Query
 	for _, n := range Names() {
 		for _, t := range QTypes() {
+			q = append(q, Query{n, t})
+		}
+	}
+	for _, n := range VeryDeepNames() {
+		for _, t := range VeryDeepQTypes() {
 			q = append(q, Query{n, t})
 		}
 	}
